@@ -60,6 +60,9 @@ func isoPlainName(name string, dir bool) string {
 	if len(base) > 8 {
 		base = base[:8]
 	}
+	if dir {
+		return base // directory identifiers carry no extension: everything behind the first dot is dropped
+	}
 	if len(ext) > 3 {
 		ext = ext[:3]
 	}
@@ -112,6 +115,13 @@ func c06Trees(quick bool) []*treeSpec {
 		col11.Files[fmt.Sprintf("samestem-%c-file.text", 'a'+i)] = defaultContent(fmt.Sprint("s", i), i+1)
 	}
 	trees = append(trees, col2, col11)
+	// a collision group next to siblings whose own 8.3 names are exactly the names the renaming would hand out
+	// (with and without an extension), and sibling directories that differ only behind the first dot
+	trees = append(trees, &treeSpec{Files: map[string][]byte{"longfilename_a.txt": defaultContent("ga", 3), "longfilename_b.txt": defaultContent("gb", 4),
+		"longfil0.txt": defaultContent("g0", 5), "longfil1.txt": defaultContent("g1", 6), "longfi00.txt": defaultContent("g00", 7)}})
+	trees = append(trees, &treeSpec{Files: map[string][]byte{"longfilename_a": defaultContent("na", 3), "longfilename_b": defaultContent("nb", 4),
+		"longfil0": defaultContent("n0", 5), "longfil1": defaultContent("n1", 6)}})
+	trees = append(trees, &treeSpec{Dirs: []string{"lib-1.0", "lib-1.1", "lib-1.2"}, Files: map[string][]byte{"lib-1.0/a.txt": defaultContent("l0", 3), "lib-1.1/a.txt": defaultContent("l1", 4), "lib-1.2/b.txt": defaultContent("l2", 5)}})
 	// a file whose size is an exact multiple of the block size next to a sub-directory, and exact-fit directories
 	trees = append(trees, &treeSpec{Dirs: []string{"a"}, Files: map[string][]byte{"b.bin": defaultContent("b", 2048), "a/x.bin": defaultContent("x", 100), "Zeta.bin": defaultContent("ze", 7), "alpha.bin": defaultContent("al", 4096), "empty": nil}})
 	for _, n := range []int{40, 41, 42, 43} {
@@ -124,6 +134,18 @@ func c06Trees(quick bool) []*treeSpec {
 	// long names (Rock Ridge NM entries that need a continuation area; Joliet allows 64 characters), alone and in pairs
 	for _, n := range []int{64, 100, 150, 200, 250} {
 		trees = append(trees, &treeSpec{Tag: fmt.Sprint("name", n), Files: map[string][]byte{strings.Repeat("n", n-4) + ".txt": defaultContent("ln", 9)}})
+	}
+	// every name length 100..131 in one directory (Rock Ridge records up to the 254-byte record limit; from 132 characters on
+	// the unchanged reader panics, which is recorded for the name150 shape)
+	sweep := &treeSpec{Tag: "namesweep", Files: map[string][]byte{}}
+	for n := 100; n <= 131; n++ {
+		sweep.Files[fmt.Sprintf("%03d", n)+strings.Repeat("w", n-7)+".txt"] = defaultContent(fmt.Sprint("sw", n), n%7+1)
+	}
+	trees = append(trees, sweep)
+	// one long name per image in a sub-directory, next to a file that sorts behind it: every length 120..149
+	for n := 120; n < 150; n++ {
+		trees = append(trees, &treeSpec{Tag: "name-in-subdir", Dirs: []string{"docs"}, Files: map[string][]byte{"docs/zulu.txt": defaultContent("zulu", 2700),
+			"docs/" + strings.Repeat("m", n-4) + ".dat": defaultContent(fmt.Sprint("sd", n), 3000)}})
 	}
 	trees = append(trees, &treeSpec{Tag: "names100x3", Dirs: []string{"sub-" + strings.Repeat("d", 96)}, Files: map[string][]byte{strings.Repeat("p", 100): defaultContent("p", 3), strings.Repeat("q", 100): defaultContent("q", 4),
 		"sub-" + strings.Repeat("d", 96) + "/" + strings.Repeat("r", 64): defaultContent("r", 5)}})
@@ -142,6 +164,35 @@ func runISOCase(c *isoCase, t *treeSpec) (sig, msg, outcome string) {
 		mode = "joliet"
 	}
 	tag := mode
+	if c.Joliet && !c.RockRidge && c.Blocksize == 2048 {
+		// The Joliet-only reader has known defects that depend on the SHAPE of the tree; the class is part of the
+		// signature so that a flat or one-level tree of non-empty ASCII-named entries - which reads back correctly -
+		// is not covered by the findings recorded for the other shapes.
+		nested, nonASCIIDir, allEmpty := false, false, len(t.Files) > 0
+		for _, d := range t.Dirs {
+			if strings.Contains(d, "/") {
+				nested = true
+			}
+			for _, r := range d {
+				if r > 127 {
+					nonASCIIDir = true
+				}
+			}
+		}
+		for _, b := range t.Files {
+			if len(b) > 0 {
+				allEmpty = false
+			}
+		}
+		switch {
+		case nested:
+			tag += "[nested-dirs]"
+		case nonASCIIDir:
+			tag += "[non-ascii-dir]"
+		case allEmpty:
+			tag += "[only-empty-files]"
+		}
+	}
 	if c.Blocksize != 2048 {
 		tag += "|bs>2048"
 	}
